@@ -155,7 +155,7 @@ fn c12_triangle_any_increment() {
 /// 2*pi*1.002*2^-24 (one counter step) + two f32 ulps (of 1.0)
 const SINE_ADJ_BOUND: f64 = 6.295751677796366 / 16777216.0 + 2.0 * 1.1920928955078125e-7;
 
-// @family prop=C12 name=c12_sine_slice n=256 quick=0,63,64,127,128,191,192,254,255 seeded=4 timeout=900
+// @family prop=C12 name=c12_sine_slice n=256 quick=0,63,64,127,128,191,192,254,255 seeded=8 timeout=900
 // @about slice k = the 2^16 consecutive counter values [k*2^16,(k+1)*2^16) (4 table cells), acc symbolic in the slice: (a) |sine(acc) - I(acc)| <= 2^-23 where I is the exact (f64) linear interpolant of the table with the neighbour wrapping to entry 0 after entry 1023 and the in-cell fraction low14/2^14; (b) adjacent counter values (smallest increment, incl. the step from the last value of the cycle to 0): |sine(acc+1) - sine(acc)| <= 2*pi*1.002*2^-24 + 2 ulp. quick: boundary slices (start, quarter points, wrap) + VERIF_SEED-chosen; thorough: all 256 = all 2^24 values
 macro_rules! c12_sine_slice {
     ($name:ident, $k:expr) => {
